@@ -33,6 +33,11 @@ type IlvCase struct {
 	Burst    int     `json:"burst"`      // steps a picked runtime runs before yielding (>=1)
 	Perturb  int     `json:"perturb"`    // every n-th event an unrelated program runs in a scratch runtime (0 = never)
 	GenSyms  int     `json:"gensyms"`    // concurrent GenSym/GenEnvID callers on one runtime (0 = none)
+	// PreTwin: the solo twins also run BEFORE the interleaved run (used when
+	// runtimes are configured differently by their hosts: what one runtime's
+	// host configured must not reach a runtime constructed later, and a twin
+	// that runs afterwards would inherit the same leak)
+	PreTwin bool `json:"pre_twin,omitempty"`
 }
 
 type ilvEngine struct{}
@@ -117,6 +122,8 @@ type ilvGen struct {
 	needConst  bool
 	needStdlib bool
 	hasMty     bool
+	hasMk      bool
+	cfgReads   bool
 	keepN      int
 	kept       []string
 }
@@ -142,7 +149,19 @@ func (g *ilvGen) newLit() string {
 		}
 		return strings.Join(parts, " ")
 	}
-	switch g.r.Pick([]int{6, 3, 2, 2, 1, 4, 3, 2, 2}) {
+	switch g.r.Pick([]int{6, 3, 2, 2, 1, 4, 3, 2, 2, 3}) {
+	case 9:
+		// a quoted literal that a macro builds out of its arguments: the call
+		// site is program text, the literal exists only in the expansion
+		kind = "macro-built"
+		if !g.hasMk {
+			g.hasMk = true
+			g.defs = append([]*Node{
+				A("(defmacro mklit (&rest xs) (quasiquote (quote ((unquote-splicing xs)))))"),
+				A("(defmacro mkvec (&rest xs) (quasiquote (quote (unquote (apply vector xs)))))"),
+				A("(defmacro mkpair (a &rest xs) (quasiquote (quote ((unquote a) (unquote xs)))))")}, g.defs...)
+		}
+		lit = A("(" + PickStr(g.r, []string{"mklit", "mklit", "mkvec", "mkpair"}) + " " + ints(g.r.Range(2, 6)) + ")")
 	case 0:
 		lit = Q(L(g.intLits(g.r.Range(2, 6))...))
 	case 1:
@@ -228,7 +247,25 @@ func (g *ilvGen) less() *Node {
 // mutate applies an in-place or capacity-sensitive builtin to a view.
 func (g *ilvGen) mutate() *Node {
 	v := g.view(g.r.Range(0, 2))
-	switch g.r.Pick([]int{8, 3, 4, 3, 3, 2, 2, 2, 2, 2, 2, 1, 3, 4, 2, 4, 2, 4, 4, 3}) {
+	switch g.r.Pick([]int{8, 3, 4, 3, 3, 2, 2, 2, 2, 2, 2, 1, 3, 4, 2, 4, 2, 4, 4, 3, 4, 2}) {
+	case 20:
+		// insertion at the very end of a sequence (where a spare slot of the
+		// source's storage would be), then in-place work on the result
+		ty := QS(PickStr(g.r, []string{"list", "list", "vector"}))
+		ins := PickNode(g.r,
+			Call("insert-sorted", ty, v, A("<"), I(g.r.Range(90, 99))),
+			Call("insert-index", ty, v, Call("length", v), I(g.r.Range(90, 99))),
+			Call("insert-sorted", ty, v, L(A("lambda"), L(A("a"), A("b")), Call("<", A("a"), A("b"))), A("ctr")))
+		return PickNode(g.r, Call("stable-sort", A(">"), ins), Call("list", ins, ins), Call("append!", ins, I(7)))
+	case 21:
+		// reads whose result depends on how THIS runtime's json package is configured
+		g.needStdlib = true
+		g.cfgReads = true
+		return PickNode(g.r,
+			A(`(map 'list type (json:load-string "[1, 2.5, 9007199254740993]"))`),
+			A(`(json:dump-string (json:load-string "{\"id\":9007199254740993}"))`),
+			A(`(json:load-string "[9007199254740993, 12345678901234567890, 1]")`),
+			A(`(list (json:dump-string 1.5) (json:dump-string (to-float 3)) (json:load-string "3"))`))
 	case 17:
 		// quasiquote templates that splice a literal (alone, at the tail, in the middle)
 		tpl := PickNode(g.r,
@@ -459,6 +496,12 @@ func (ilvEngine) Gen(r *Rand, tier string) any {
 			k.MaxPhys = r.Range(3, 12)
 		}
 		k.Stdlib = g.needStdlib
+		if g.cfgReads && r.Chance(1, 2) {
+			// this runtime's host configures its json package
+			k.Prelude = PickStr(r, []string{"(json:use-exact-integers true)", "(json:use-exact-integers false)", "(json:use-string-numbers true)", "(json:use-string-numbers false)",
+				"(json:use-exact-integers true) (json:use-string-numbers true)"})
+			c.PreTwin = true
+		}
 		c.Knobs = append(c.Knobs, k)
 		c.Program = append(c.Program, r.Chance(1, 3))
 	}
@@ -562,6 +605,19 @@ func (ilvEngine) Run(ci any, st *Stats) *Violation {
 		return Violf("harness", "%v", err)
 	}
 
+
+	var preTwins [][]ilvLoadResult
+	if c.PreTwin {
+		for i := 0; i < n; i++ {
+			tw, err := runSolo(c.Knobs[i], src, c.Loads[i], c.Program[i])
+			if err != nil {
+				return Violf("harness", "%v", err)
+			}
+			preTwins = append(preTwins, tw)
+			st.Runs += int64(c.Loads[i])
+		}
+		st.Inc("cases_with_twins_before_and_after")
+	}
 
 	// the interleaved run
 	worlds := make([]*World, n)
@@ -764,6 +820,15 @@ func (ilvEngine) Run(ci any, st *Stats) *Violation {
 			}
 			if got.out.Steps != want.out.Steps {
 				return Violf("progress-differs", "runtime %d load %d took %d steps interleaved, %d alone", i, l, got.out.Steps, want.out.Steps)
+			}
+			if preTwins != nil && l < len(preTwins[i]) {
+				pre := preTwins[i][l]
+				if got.out.Result() != pre.out.Result() || got.out.Stderr != pre.out.Stderr {
+					return Violf("result-differs-from-fresh-parse", "runtime %d load %d of the shared parse: %q; the same load of a fresh parse in an identically configured runtime that ran alone BEFORE the other runtimes existed: %q", i, l, got.out.Result(), pre.out.Result())
+				}
+				if d := cmpEvents(relEvents(got.evs), relEvents(pre.evs)); d != "" {
+					return Violf("result-differs-from-fresh-parse", "runtime %d load %d (twin that ran before the other runtimes existed): %s", i, l, d)
+				}
 			}
 			for _, ev := range got.evs {
 				if strings.HasPrefix(ev.Tag, "lit:") {
